@@ -47,6 +47,9 @@ pub enum D {
     AsPtrRel(Id, Id),
     Borrow(Id),
     DropVal(Id),
+    /// Park handle h in a side slot; the next `V::clone` (run by make_mut) drops it:
+    /// a Clone impl with a side effect on the very object being cloned.
+    Park(Id),
 }
 
 impl D {
@@ -100,6 +103,7 @@ impl D {
             "AsPtrRel" => D::AsPtrRel(u(0)?, u(1)?),
             "Borrow" => D::Borrow(u(0)?),
             "DropVal" => D::DropVal(u(0)?),
+            "Park" => D::Park(u(0)?),
             _ => return Err(format!("unknown op {n}")),
         })
     }
@@ -163,8 +167,16 @@ macro_rules! interp {
                     log(|| format!("~{id} {obs:?}"));
                 }
             }
+            thread_local! { static PARKED: RefCell<Option<R<V>>> = RefCell::new(None); }
             impl Clone for V {
                 fn clone(&self) -> V {
+                    // a Clone impl with side effects: release the parked handle, if any
+                    let parked = PARKED.with(|p| p.borrow_mut().take());
+                    if let Some(r) = parked {
+                        let id = r.id;
+                        log(|| format!("clone releases parked handle to {id}"));
+                        drop(r);
+                    }
                     let v = V { id: fresh(), key: self.key.clone(), s: RefCell::new(self.s.borrow().clone()), w: RefCell::new(self.w.borrow().clone()) };
                     let (a, b) = (self.id, v.id);
                     log(|| format!("clone {a}->{b}"));
@@ -493,9 +505,16 @@ macro_rules! interp {
                                 drop(v);
                             }
                         }
+                        D::Park(h) => {
+                            if let Some(r) = hs.remove(&h) {
+                                let old = PARKED.with(|p| p.borrow_mut().replace(r));
+                                drop(old);
+                            }
+                        }
                     }
                 }
                 log(|| "end".into());
+                drop(PARKED.with(|p| p.borrow_mut().take()));
                 drop(vals);
                 let keys: Vec<Id> = raws.keys().copied().collect();
                 for k in keys {
@@ -542,7 +561,7 @@ pub fn generate(rng: &mut Rng, thorough: bool) -> Vec<D> {
             }
         };
         let k = rng.below(4) as i32;
-        let op = match rng.below(44) {
+        let op = match rng.below(46) {
             0 | 1 => D::New(hid(&mut nh), k),
             2 => D::FromT(hid(&mut nh), k),
             3 => D::FromBox(hid(&mut nh), k),
@@ -595,7 +614,8 @@ pub fn generate(rng: &mut Rng, thorough: bool) -> Vec<D> {
                     D::Borrow(recent(rng, nh))
                 }
             }
-            _ => D::DropVal(recent(rng, nh)),
+            43 => D::DropVal(recent(rng, nh)),
+            _ => D::Park(recent(rng, nh)),
         };
         v.push(op);
     }
